@@ -124,6 +124,61 @@ def tpl_queue(maxsize, x1, a1, x2, a2, x3, a3, x4, a4, x5, a5, t, _twin=False):
         w.close(code)
 
 
+def tpl_aexit(maxsize, n, t, _twin=False):
+    """n items are queued, one consumer holds the first; its body finishes and t iterations later the consumer is
+    cancelled (t = 1 is 'right at block exit'); other consumers then take the rest.  join() must complete."""
+    w = World("c20.aexit")
+    code = 0
+    try:
+        q = Queue(maxsize)
+        st = {"exited": 0, "entered": 0}
+        gates = []
+
+        async def consumer():
+            async with q as item:
+                st["entered"] += 1
+                g = w.loop.create_future()
+                gates.append(g)
+                try:
+                    await g
+                finally:
+                    st["exited"] += 1
+        puts = 0
+        for k in range(n):
+            try:
+                q.put_nowait(ITEMS[k])
+                puts += 1
+            except asyncio.QueueFull:
+                break
+        w.op("put", puts)
+        c0 = w.spawn(consumer())
+        w.settle()
+        w.op("body-exit-then-cancel", t)
+        gates[0].set_result(None)
+        w.ticks(t)
+        c0.cancel()
+        w.settle()
+        for k in range(puts - 1):
+            w.spawn(consumer())
+            w.settle()
+            gates[-1].set_result(None)
+            w.settle()
+        j = w.spawn(q.join())
+        w.settle()
+        if st["exited"] == puts and not j.done():
+            code = 2002
+        if j.done() and st["exited"] != puts:
+            code = 2001
+        if not j.done():
+            j.cancel()
+            w.settle()
+        if _twin and not code and puts >= 2 and st["exited"] == puts:
+            code = 77
+        return code
+    finally:
+        w.close(code)
+
+
 def families(tier):
     thorough = tier == "thorough"
     P = ["maxsize", "x1", "a1", "x2", "a2", "x3", "a3", "x4", "a4", "x5", "a5", "t"]
@@ -135,5 +190,7 @@ def families(tier):
     else:
         pre += ["0 <= x5 <= %d" % NOP, "a5 >= 0", "a2 <= 2", "a3 <= 3", "a4 <= 3", "a5 <= 3"]
         parts = parts_product(x1=(0, 1), x2=range(NOP), x3=range(NOP), x4=range(NOP + 1))
-    return [Family(name="queue", fn="tpl_queue", params=P, pre=pre, parts=parts,
+    return [Family(name="aexit", fn="tpl_aexit", params=["maxsize", "n", "t"], pre=["maxsize >= 0", "1 <= n <= 3", "t >= 0"],
+                   parts=parts_product(n=(1, 2, 3)), twin_pre=["n == 2"], twin_args=[0, 2, 1]),
+            Family(name="queue", fn="tpl_queue", params=P, pre=pre, parts=parts,
                    twin_pre=["x1 == 0", "x2 == 1", "x3 == 4"], twin_args=[0, 0, 0, 1, 0, 4, 0, NOP, 0, NOP, 0, 9])]
